@@ -1,6 +1,14 @@
-/-! Model of `split(track, af_name)` (algo/segmentation.py): observations are abstract, markers a Bool list. -/
+/-! Model of `split(track, source, limit)` and `segmentation()` (algo/segmentation.py), of `Track.extract` /
+`Track.length` (core/track.py) as far as `split` uses them, and of the `TrackCollection` entry points
+`segmentation` / `split_segmentation` (core/track_collection.py).
+
+Observations are abstract (`β`): `split` never looks at an observation except through the marker feature and,
+when `limit > 0`, through the length of the extracted piece — so every statement about `split` holds whatever the
+coordinates are (NaN, infinite, repeated positions), whatever the timestamps and the other features are. -/
 namespace TV.Split
 variable {β : Type}
+
+/-! ## `split(track, <feature name>)` with the default `limit = 0` -/
 
 /-- loop state: pieces emitted so far (in order), current piece (from `begin`), and whether `begin != 0` -/
 def go : List (β × Bool) → List β → List (List β) → Bool → List (List β) × List β × Bool
@@ -13,47 +21,254 @@ def go : List (β × Bool) → List β → List (List β) → Bool → List (Lis
 def split (obs : List (β × Bool)) : List (List β) :=
   let (acc, cur, started) := go obs [] [] false
   if started then acc ++ [cur] else acc
+
+/-! ## `split(track, <feature name>, limit)`
+
+The two filters of the code are kept as two separate tests, because they are not the negation of each other:
+`short p`    = `limit > 0 and newtrack.length() < limit`   (in the loop: `continue`, the piece is not added),
+`keepTail p` = `limit == 0 or (limit > 0 and newtrack.length() >= limit)`   (closing piece: added only when true).
+`begin = i + 1` is executed before the test, so a skipped piece still moves `begin` (and makes `begin != 0`). -/
+
+def goL (short : List β → Bool) : List (β × Bool) → List β → List (List β) → Bool → List (List β) × List β × Bool
+  | [], cur, acc, started => (acc, cur, started)
+  | (o, m) :: rest, cur, acc, started =>
+    if m then
+      if short (cur ++ [o]) then goL short rest [] acc true
+      else goL short rest [] (acc ++ [cur ++ [o]]) true
+    else goL short rest (cur ++ [o]) acc started
+
+def splitL (short keepTail : List β → Bool) (obs : List (β × Bool)) : List (List β) :=
+  let (acc, cur, started) := goL short obs [] [] false
+  if started then (if keepTail cur then acc ++ [cur] else acc) else acc
+
+/-! ### the same loop with the numbers that go into the pieces' uids
+
+`new_id = str(track.uid) + "." + str(count) + "." + str(begin) + "." + str(i)` (closing piece: `… + str(track.size()-1)`);
+`count` is incremented only for a piece that is added. `findStopsLocal` reads the last two fields back as the indices
+of the first and last observation of the piece. Here the loop is written with `i`, `begin`, `count` as in the code,
+and the closing test is the code's `begin != 0`. -/
+
+/-- (`count`, `begin`, `i`) of a piece -/
+abbrev PId := Nat × Nat × Nat
+
+def goU (short : List β → Bool) :
+    List (β × Bool) → Nat → Nat → Nat → List β → List (PId × List β) → List (PId × List β) × List β × Nat × Nat
+  | [], _, begin, count, cur, acc => (acc, cur, begin, count)
+  | (o, m) :: rest, i, begin, count, cur, acc =>
+    if m then
+      if short (cur ++ [o]) then goU short rest (i + 1) (i + 1) count [] acc
+      else goU short rest (i + 1) (i + 1) (count + 1) [] (acc ++ [((count, begin, i), cur ++ [o])])
+    else goU short rest (i + 1) begin count (cur ++ [o]) acc
+
+def splitU (short keepTail : List β → Bool) (obs : List (β × Bool)) : List (PId × List β) :=
+  let (acc, cur, begin, count) := goU short obs 0 0 0 [] []
+  if begin ≠ 0 then (if keepTail cur then acc ++ [((count, begin, obs.length - 1), cur)] else acc) else acc
+
+section limit
+variable {α : Type} [LT α] [LE α] [DecidableLT α] [DecidableLE α] [BEq α] [OfNat α 0]
+
+/-- `limit > 0 and length < limit` (Python's `limit > 0` is `0 < limit`; with a NaN length the test is False) -/
+def limitShort (limit len : α) : Bool := decide ((0 : α) < limit) && decide (len < limit)
+
+/-- `limit == 0 or (limit > 0 and length >= limit)` (with a NaN length and `limit > 0` the test is False) -/
+def limitKeepTail (limit len : α) : Bool := limit == 0 || (decide ((0 : α) < limit) && decide (limit ≤ len))
+
+/-- `split(track, name, limit)`, `length` standing for `Track.length` of the extracted piece -/
+def splitLimit (length : List β → α) (limit : α) (obs : List (β × Bool)) : List (List β) :=
+  splitL (fun p => limitShort limit (length p)) (fun p => limitKeepTail limit (length p)) obs
+end limit
+
+/-! ## `Track.length()`: `s = 0; for i in 1..size-1: s += obs[i-1].distanceTo(obs[i])`,
+`distanceTo` = `(point - self).norm()` = `sqrt(dE**2 + dN**2 + dU**2)` (core/obs_coords.py).
+Python's `x ** 2` is `pow(x, 2.0)`; it equals `x * x` whenever `x * x` is exactly representable or overflows,
+which is the case on the dyadic lattice (plus NaN, ±inf, huge values) the harness generates. -/
+section length
+variable {α : Type} [Add α] [Sub α] [Mul α]
+
+def dist3 (sqrt : α → α) (self point : α × α × α) : α :=
+  let dE := point.1 - self.1
+  let dN := point.2.1 - self.2.1
+  let dU := point.2.2 - self.2.2
+  sqrt (dE * dE + dN * dN + dU * dU)
+
+def lengthFrom (sqrt : α → α) : α → List (α × α × α) → α
+  | s, a :: b :: rest => lengthFrom sqrt (s + dist3 sqrt a b) (b :: rest)
+  | s, _ => s
+
+def trackLength [OfNat α 0] (sqrt : α → α) (pts : List (α × α × α)) : α := lengthFrom sqrt 0 pts
+end length
+
+/-! ## `Track.extract(id_ini, id_fin)` and `split(track, <list of indices>, limit)`
+
+`extract`: `for k in range(id_ini, id_fin + 1): track.addObs(self.__POINTS[k])` — Python list indexing, so a
+negative `k` counts from the end and `k >= size` / `k < -size` raises `IndexError` (`none`); `id_ini > id_fin`
+gives an empty track. -/
+
+/-- `l[k]` of a Python list -/
+def pyIndex (l : List β) (k : Int) : Option β :=
+  if 0 ≤ k then l[k.toNat]?
+  else if 0 ≤ (l.length : Int) + k then l[((l.length : Int) + k).toNat]?
+  else none
+
+/-- `range(a, b)` -/
+def pyRange (a b : Int) : List Int := (List.range (b - a).toNat).map (fun (i : Nat) => a + (i : Int))
+
+def extract (l : List β) (a b : Int) : Option (List β) := (pyRange a (b + 1)).mapM (pyIndex l)
+
+/-- `for i in range(len(source) - 1): newtrack = track.extract(source[i], source[i+1]); if short: continue; add`.
+`none` = `IndexError` (the first one aborts the call). Consecutive pieces share their boundary observation. -/
+def splitIdx (short : List β → Bool) (l : List β) : List Int → Option (List (List β))
+  | a :: b :: rest =>
+    match extract l a b with
+    | none => none
+    | some p =>
+      match splitIdx short l (b :: rest) with
+      | none => none
+      | some ps => some (if short p then ps else p :: ps)
+  | _ => some []
+
+/-! ## `TrackCollection.split_segmentation(af)`: the pieces of every track, in the order of the tracks
+(a track without any marked observation contributes nothing). -/
+def splitColl (tracks : List (List (β × Bool))) : List (List β) := tracks.flatMap split
 end TV.Split
 
 namespace TV.Split
-/-! `segmentation()`: per observation, fold of `value ≤ threshold` over the tested features in the
-order of `afs_input` (`index` = position of the feature), starting from `true` in AND mode and
-`false` in OR mode; a NaN value (`none`) is skipped before the threshold is even looked up; the
-marker is the negation of the fold. -/
+/-! ## `segmentation()`
+
+Per observation, fold of `value ≤ threshold` over the tested features in the order of `afs_input` (`index` =
+position of the feature), starting from `true` in AND mode and `false` in OR mode; a NaN value (`none`) is skipped
+before the threshold is even looked up; the marker is the negation of the fold.
+
+Scalars: any type `α` with a decidable `≤` (the driver runs `Ext` = rationals plus ±∞, on which the comparison of
+two doubles is exact; the theorems are for any `α` where `¬ a ≤ b ↔ b < a`). `fmax` stands for `sys.float_info.max`. -/
+variable {α : Type} [LE α] [DecidableLE α]
 
 /-- `seuil_max = sys.float_info.max; if len(thresholds_max) >= index: seuil_max = thresholds_max[index]`.
-`none` = the `IndexError` raised when `index == len(thresholds_max)` (the guard is `>=`, not `>`);
-`some none` = the default `sys.float_info.max` (only reachable for `index > len`), below which every
-finite value lies; `some (some th)` = the listed threshold. -/
-def threshold (ths : List Rat) (index : Nat) : Option (Option Rat) :=
-  if ths.length ≥ index then
-    match ths[index]? with
-    | some th => some (some th)
-    | none => none
-  else some none
+`none` = the `IndexError` raised when `index == len(thresholds_max)` (the guard is `>=`, not `>`); the default
+`fmax` is only reachable for `index > len`. -/
+def threshold (fmax : α) (ths : List α) (index : Nat) : Option α :=
+  if ths.length ≥ index then ths[index]? else some fmax
 
 /-- the inner `for index, af_input in enumerate(afs_input)` loop; `none` = `IndexError` -/
-def foldCmp (andMode : Bool) (ths : List Rat) : Nat → List (Option Rat) → Bool → Option Bool
+def foldCmp (fmax : α) (andMode : Bool) (ths : List α) : Nat → List (Option α) → Bool → Option Bool
   | _, [], acc => some acc
-  | index, none :: vs, acc => foldCmp andMode ths (index + 1) vs acc
+  | index, none :: vs, acc => foldCmp fmax andMode ths (index + 1) vs acc
   | index, some v :: vs, acc =>
-    match threshold ths index with
+    match threshold fmax ths index with
     | none => none
-    | some t =>
-      let c := match t with
-        | some th => decide (v ≤ th)
-        | none => true
-      foldCmp andMode ths (index + 1) vs (if andMode then acc && c else acc || c)
+    | some th =>
+      let c := decide (v ≤ th)
+      foldCmp fmax andMode ths (index + 1) vs (if andMode then acc && c else acc || c)
 
 /-- marker of one observation (`true` = 1, `false` = 0); `none` = the call raised `IndexError` -/
-def marker (andMode : Bool) (ths : List Rat) (vals : List (Option Rat)) : Option Bool :=
-  (foldCmp andMode ths 0 vals andMode).map (!·)
+def marker (fmax : α) (andMode : Bool) (ths : List α) (vals : List (Option α)) : Option Bool :=
+  (foldCmp fmax andMode ths 0 vals andMode).map (!·)
 
 /-- the outer loop over the observations: the first `IndexError` aborts the call -/
-def markers (andMode : Bool) (ths : List Rat) : List (List (Option Rat)) → Option (List Bool)
+def markers (fmax : α) (andMode : Bool) (ths : List α) : List (List (Option α)) → Option (List Bool)
   | [] => some []
   | r :: rs =>
-    match marker andMode ths r with
+    match marker fmax andMode ths r with
     | none => none
-    | some b => (markers andMode ths rs).map (b :: ·)
+    | some b => (markers fmax andMode ths rs).map (b :: ·)
+
+/-! ### the front end: argument forms, the feature table, the output feature -/
+
+/-- an argument given as one value or as a list: `if not isinstance(x, list): x = [x]` -/
+inductive Arg (γ : Type) where
+  | one (a : γ)
+  | many (l : List γ)
+
+def Arg.listify {γ : Type} : Arg γ → List γ
+  | .one a => [a]
+  | .many l => l
+
+/-- a feature column, one value per observation; `none` = NaN -/
+abbrev Col (α : Type) := List (Option α)
+
+/-- what `segmentation()` can read of a track: its size, the virtual features `x y z t idx` (computed by
+`getObsAnalyticalFeature` from the observation itself) and the analytical-feature table in insertion order -/
+structure FTrack (α : Type) where
+  size : Nat
+  virt : List (String × Col α)
+  feats : List (String × Col α)
+
+/-- names refused by `Track.__controlName` -/
+def reserved : List String := ["x", "y", "z", "t", "timestamp", "idx"]
+
+def FTrack.has (t : FTrack α) (name : String) : Bool := t.feats.any (fun p => p.1 == name)
+
+/-- `getObsAnalyticalFeature(name, ·)`: virtual names first, then the table; `none` = `AnalyticalFeatureError` -/
+def FTrack.get (t : FTrack α) (name : String) : Option (Col α) :=
+  match t.virt.lookup name with
+  | some c => some c
+  | none => t.feats.lookup name
+
+/-- overwrite the column of an existing feature (its place in the table is kept) -/
+def FTrack.setCol (t : FTrack α) (name : String) (col : Col α) : FTrack α :=
+  { t with feats := t.feats.map (fun p => if p.1 == name then (p.1, col) else p) }
+
+/-- `createAnalyticalFeature(name)` with the default `val_init = 0.0`: nothing happens when the feature exists -/
+def FTrack.create [OfNat α 0] (t : FTrack α) (name : String) : FTrack α :=
+  if t.has name then t else { t with feats := t.feats ++ [(name, List.replicate t.size (some 0))] }
+
+/-- the tested values of every observation, in the order of `afs_input`; `none` = an unknown feature name -/
+def FTrack.rows (t : FTrack α) (afs : List String) : Option (List (List (Option α))) :=
+  match afs.mapM t.get with
+  | none => none
+  | some cols => some ((List.range t.size).map (fun i => cols.map (fun c => (c[i]?).getD none)))
+
+/-- `segmentation(track, afs_input, af_output, thresholds_max, mode)`. Errors: `"af"` =
+`AnalyticalFeatureError` (reserved output name, empty track, unknown tested feature), `"index"` = `IndexError`.
+Observation `i` reads the tested features at `i` before the marker is written at `i`, and no other index is
+touched at step `i`: reading every row from the track as it is after `createAnalyticalFeature` is the same thing,
+also when the output feature is one of the tested ones. The marker is written as the integers 1 / 0. -/
+def segTrack [OfNat α 0] [OfNat α 1] (fmax : α) (andMode : Bool) (t : FTrack α) (afs : Arg String) (out : String)
+    (ths : Arg α) : Except String (FTrack α) :=
+  if reserved.contains out then .error "af"
+  else if t.size = 0 then .error "af"
+  else
+    let t1 := t.create out
+    match t1.rows afs.listify with
+    | none => .error "af"
+    | some rows =>
+      match markers fmax andMode ths.listify rows with
+      | none => .error "index"
+      | some bs => .ok (t1.setCol out (bs.map (fun b => some (if b then 1 else 0))))
+
+/-- `TrackCollection.segmentation`: every track in turn, the first error aborts -/
+def segColl [OfNat α 0] [OfNat α 1] (fmax : α) (andMode : Bool) (ts : List (FTrack α)) (afs : Arg String)
+    (out : String) (ths : Arg α) : Except String (List (FTrack α)) :=
+  ts.mapM (fun t => segTrack fmax andMode t afs out ths)
+end TV.Split
+
+namespace TV.Split
+/-! ## rationals with the two infinities: the finite and infinite doubles, compared exactly -/
+inductive Ext where
+  | ninf
+  | fin (r : Rat)
+  | pinf
+  deriving DecidableEq
+
+def Ext.le : Ext → Ext → Bool
+  | .ninf, _ => true
+  | _, .pinf => true
+  | .fin x, .fin y => decide (x ≤ y)
+  | _, _ => false
+
+def Ext.lt : Ext → Ext → Bool
+  | .pinf, _ => false
+  | _, .ninf => false
+  | .fin x, .fin y => decide (x < y)
+  | _, _ => true
+
+instance : LE Ext := ⟨fun a b => Ext.le a b = true⟩
+instance : LT Ext := ⟨fun a b => Ext.lt a b = true⟩
+instance : DecidableLE Ext := fun a b => inferInstanceAs (Decidable (Ext.le a b = true))
+instance : DecidableLT Ext := fun a b => inferInstanceAs (Decidable (Ext.lt a b = true))
+instance : OfNat Ext 0 := ⟨.fin 0⟩
+instance : OfNat Ext 1 := ⟨.fin 1⟩
+
+/-- `sys.float_info.max` = (2 - 2^-52) * 2^1023 -/
+def Ext.fmax : Ext := .fin ((2 ^ 1024 - 2 ^ 971 : Nat) : Rat)
 end TV.Split
